@@ -182,7 +182,12 @@ func convertBase64(data interface{}) {
 			switch d[0].(type) {
 			case string:
 				for i, s := range d {
-					decoded, err := base64.StdEncoding.DecodeString(s.(string))
+					// only the first element is known to be a string
+					str, ok := s.(string)
+					if !ok {
+						continue
+					}
+					decoded, err := base64.StdEncoding.DecodeString(str)
 					if err == nil && len(decoded) == 32 {
 						ch, err := chainhash.NewHash(decoded)
 						if err == nil {
@@ -233,12 +238,17 @@ func convertHex(data interface{}) {
 			switch d[0].(type) {
 			case string:
 				for i, s := range d {
-					ch, err := chainhash.NewHashFromStr(s.(string))
-					if err == nil && len(s.(string)) == 64 {
+					// only the first element is known to be a string
+					str, ok := s.(string)
+					if !ok {
+						continue
+					}
+					ch, err := chainhash.NewHashFromStr(str)
+					if err == nil && len(str) == 64 {
 						d[i] = base64.StdEncoding.EncodeToString(ch.CloneBytes())
 						continue
 					}
-					decoded, err := hex.DecodeString(s.(string))
+					decoded, err := hex.DecodeString(str)
 					if err == nil {
 						d[i] = base64.StdEncoding.EncodeToString(decoded)
 					}
